@@ -50,8 +50,12 @@ def make_tensor(shape, kind: str, seed: int, scale: float, dtype: torch.dtype) -
         if len(shape) >= 1 and n:
             dim = int(seed) % len(shape)
             d = shape[dim]
-            k = min(d, 2 + (int(seed) // 3) % 2)
-            idx = torch.randperm(d, generator=g)[:k]
+            # the active slices depend on the shape only, so that the sparsity pattern of the Gram matrix is stable over a history
+            gp = torch.Generator().manual_seed(sum((i + 1) * x for i, x in enumerate(shape)) * 7 + len(shape))
+            dim = int(torch.randint(0, len(shape), (1,), generator=gp))
+            d = shape[dim]
+            k = min(d, 2 + int(torch.randint(0, 2, (1,), generator=gp)))
+            idx = torch.randperm(d, generator=gp)[:k]
             sl = [slice(None)] * len(shape)
             vals = torch.randn(shape, generator=g, dtype=torch.float64)
             for i in idx.tolist():
@@ -224,7 +228,7 @@ def st_config(kinds=("shampoo", "soap"), dtypes=(("f32", "f32"), ("f64", "f64"),
     return cfg()
 
 
-def st_step(nparams: int, gscale: float, force_any: bool = False, edits: bool = True, allow_absent: bool = True):
+def st_step(nparams: int, gscale: float, force_any: bool = False, edits: bool = True, allow_absent: bool = True, gbias: str | None = None):
     """One optimizer step: which parameters have gradients, gradient recipes, optional hyperparameter edits."""
     from hypothesis import strategies as st
 
@@ -242,7 +246,7 @@ def st_step(nparams: int, gscale: float, force_any: bool = False, edits: bool = 
         s: dict = {
             "mask": mask,
             "gseed": draw(st.integers(0, 10**6)),
-            "gkind": draw(st.sampled_from(GRAD_KINDS)),
+            "gkind": (gbias if (gbias is not None and draw(st.integers(0, 9)) < 8) else draw(st.sampled_from(GRAD_KINDS))),
             "gscale": gscale * draw(st.sampled_from([1.0, 1.0, 1.0, 0.1, 10.0])),
         }
         if edits and draw(st.integers(0, 5)) == 0:
@@ -341,7 +345,7 @@ def step_grads(shapes: list, step: dict, dtype: torch.dtype) -> list[torch.Tenso
     out: list[torch.Tensor | None] = []
     for i, s in enumerate(shapes):
         if step["mask"][i]:
-            kind = step["gkind"] if (step["gseed"] + i) % 4 else "gauss"
+            kind = step["gkind"] if ((step["gseed"] + i) % 4 or step["gkind"] in ("rowsparse", "onehot", "zeros")) else "gauss"
             out.append(make_tensor(s, kind, step["gseed"] * 977 + i, step["gscale"], dtype))
         else:
             out.append(None)
